@@ -60,7 +60,10 @@ def initHashes : List (String × String) :=
       declared names `sym.global, sym.node = true, n` (2be263c, F15-1/2);
     interp/ast.go ast `case token.VAR:` `if anc.node != nil && anc.node.kind == fileStmt { a.Specs = splitVarSpecs(a.Specs) }` (14ebac5, F15-3);
     interp/cfg.go genGlobalVarDecl `for _, n := range nodes { deps[n] = getVarDependencies(n, sc) }`: every
-      specification, a variable initialised by a function literal included (`collectSkip := .none`) -/
+      specification, a variable initialised by a function literal included (`collectSkip := .none`);
+    interp/cfg.go matchSelectorMethod, `if m, lind := n.typ.lookupMethod(name); m != nil { … n.action = aGetMethod;
+      if n.child[0].isType(sc) { method expression } else { method with receiver } }`: the tag is set before the
+      test, for both forms (`methodTag := .both`) -/
 def depFacts : DepFacts :=
   { resolve := .lexical,
     followFuncs := true,
@@ -70,7 +73,8 @@ def depFacts : DepFacts :=
     multiRetry := true,
     operandRetry := true,
     splitPaired := true,
-    collectSkip := .none }
+    collectSkip := .none,
+    methodTag := .both }
 
 /-- the same decisions as the code made them before round 3 (what the extractor reads from the
     parent of a9bfd4c); used by the regression examples that reproduce the repaired findings -/
@@ -83,7 +87,8 @@ def depFactsBefore : DepFacts :=
     multiRetry := false,
     operandRetry := false,
     splitPaired := false,
-    collectSkip := .none }
+    collectSkip := .none,
+    methodTag := .both }
 
 /-- fingerprints of the statements `depFacts` was read from (`getVarDependencies` is in `sourceHashes`)
     and of `compDefineX` (as of e4c80e1: for `var v, ok = m[k]` / `<-c` it asks `nodeType` for the type
@@ -93,6 +98,7 @@ def depHashes : List (String × String) :=
    ("gtaRetry", "737ad8e893ad854e"),
    ("ast: case token.VAR", "d95ba4f780b05d24"),
    ("splitVarSpecs", "9f5cbf17b563afa2"),
-   ("compDefineX", "855319677bb0156c")]
+   ("compDefineX", "855319677bb0156c"),
+   ("matchSelectorMethod", "de85f05001daa03f")]
 
 end YaegiVerif.Expected.C15
